@@ -85,6 +85,30 @@ Theorem Tie_judge_stats_sound : forall mf, I_id mf ->
             (s_added (st l)) (s_removed (st l)) (s_qty (st l)) (s_value (st l)) = true.
 Proof. exact stats_judge_sound. Qed.
 
+(* C15 across rebuilds: the judge of histories WITH rebuild events ([since_rebuild], [rebuild_base]:
+   Spec/StatsSpec.v; the bridge uses C15_across_rebuilds_mod by name) *)
+Theorem Tie_judge_stats_rebuild : forall p h added removed qty value,
+  stats_rebuild_b p h added removed qty value = true <->
+  added = (rebuild_base h + n_added (since_rebuild h)) mod W /\
+  removed = n_removed p (since_rebuild h) mod W /\
+  qty = qty_executed (since_rebuild h) mod W /\ value = val_executed (since_rebuild h) mod W /\
+  Forall (ev_tx_price p) h.
+Proof. exact stats_rebuild_b_iff. Qed.
+
+Theorem Tie_judge_stats_rebuild_sound : forall mf, I_id mf ->
+  forall p g0 ops l g outs,
+    steps mf (new_level p, g0) ops (l, g) outs ->
+    all_added_at p ops ->
+    stats_rebuild_b p (combine ops outs)
+            (s_added (st l)) (s_removed (st l)) (s_qty (st l)) (s_value (st l)) = true.
+Proof. exact stats_rebuild_judge_sound. Qed.
+
+(* without a rebuild event it is the judge of Tie_judge_stats *)
+Theorem Tie_judge_stats_rebuild_conservative : forall p h added removed qty value,
+  has_rebuild h = false ->
+  stats_rebuild_b p h added removed qty value = stats_b p h added removed qty value.
+Proof. exact stats_rebuild_b_no_rebuild. Qed.
+
 Theorem Tie_judge_update : forall p before u r after,
   update_ok_b p before u r after = true <-> UpdateOk p before u r after.
 Proof. exact update_ok_b_iff. Qed.
@@ -151,10 +175,35 @@ Example Tie_judge_stats_rejects :
   stats_b 100 h 1 0 5 0 = false /\ stats_b 101 h 1 0 5 500 = false.
 Proof. vm_compute. repeat split. Qed.
 
+Example Tie_judge_stats_rebuild_rejects :
+  let a := Standard (mkCommon (Uuid 1) 100 Sell 1 Gtc) 5 in
+  let b := Standard (mkCommon (Uuid 2) 100 Sell 2 Gtc) 3 in
+  let t := mkTx 0 (Uuid 9) (Uuid 1) 100 5 Buy in
+  let u := mkTx 1 (Uuid 9) (Uuid 2) 100 2 Buy in
+  let pre := [(OAdd a, OutAdd a); (OAdd b, OutAdd b);
+              (OMatch 5 (Uuid 9), OutMatch (mkResult (Uuid 9) [t] 0 true [Uuid 1]))] in
+  let post := [(OMatch 2 (Uuid 9), OutMatch (mkResult (Uuid 9) [u] 0 true []));
+               (OUpdate (Cancel (Uuid 2)), OutUpdate (UOk (Some b)))] in
+  let hs := pre ++ (ORebuildSnap [b], OutRebuilt) :: post in
+  let hd := pre ++ (ORebuildData [b], OutRebuilt) :: post in
+  stats_rebuild_b 100 hs 0 1 2 200 = true /\ stats_rebuild_b 100 hd 1 1 2 200 = true /\
+  stats_rebuild_b 100 hs 1 1 2 200 = false /\ stats_rebuild_b 100 hd 0 1 2 200 = false /\
+  stats_rebuild_b 100 hs 2 1 7 700 = false /\         (* the counts over the whole history *)
+  stats_rebuild_b 100 hd 3 1 7 700 = false /\
+  stats_rebuild_b 100 hs 0 0 2 200 = false /\ stats_rebuild_b 100 hs 0 1 2 0 = false /\
+  stats_rebuild_b 101 hs 0 1 2 200 = false /\
+  stats_rebuild_b 100 (pre ++ [(ORebuildData [b], OutRebuilt)]) 1 0 0 0 = true /\
+  stats_rebuild_b 100 (pre ++ [(ORebuildSnap [b], OutRebuilt)]) 0 0 0 0 = true /\
+  stats_rebuild_b 100 (pre ++ [(ORebuildSnap [b], OutRebuilt)]) 2 0 5 500 = false /\
+  stats_rebuild_b 100 pre 2 0 5 500 = true.
+Proof. vm_compute. repeat split. Qed.
+
 Check Tie_judge_exhaust.
 Check Tie_judge_exhaust_sound.
 Check Tie_judge_stats.
 Check Tie_judge_stats_sound.
+Check Tie_judge_stats_rebuild.
+Check Tie_judge_stats_rebuild_sound.
 Check Tie_judge_update.
 Check Tie_judge_update_counts.
 Check Tie_judge_update_sound.
@@ -165,6 +214,9 @@ Print Assumptions Tie_judge_exhaust_sound_wf.
 Print Assumptions Tie_judge_stats.
 Print Assumptions Tie_judge_stats_value.
 Print Assumptions Tie_judge_stats_sound.
+Print Assumptions Tie_judge_stats_rebuild.
+Print Assumptions Tie_judge_stats_rebuild_sound.
+Print Assumptions Tie_judge_stats_rebuild_conservative.
 Print Assumptions Tie_judge_update.
 Print Assumptions Tie_judge_update_counts.
 Print Assumptions Tie_judge_same_book.
